@@ -53,7 +53,7 @@ def trace_noise(n, instrs, procs):
     from mqt.yaqs.core.data_structures.noise_model import NoiseModel
     from mqt.yaqs.core.data_structures.simulation_parameters import Observable, StrongSimParams
 
-    nm = NoiseModel([dict(p) for p in procs])
+    nm = NoiseModel(lottery.nm_procs(procs))
     ident = {id(p["matrix"]) if "matrix" in p else None: k for k, p in enumerate(nm.processes)}
     events = []
     saved = (D.apply_single_qubit_gate, D.apply_two_qubit_gate, D.apply_dissipation, D.stochastic_process)
@@ -191,7 +191,7 @@ def digital_tree_average(n, instrs, procs, scale):
 
     obs = [Observable(p, q) for q in range(n) for p in "xz"]
     par = StrongSimParams(obs, show_progress=False, threshold=1e-14, max_bond_dim=16)
-    nm = NoiseModel([{**p, "strength": p["strength"] * scale} for p in procs])
+    nm = NoiseModel(lottery.nm_procs(procs, scale))
     qc = build_qiskit(n, instrs)
     real_rng = np.random.default_rng
 
